@@ -67,7 +67,7 @@ Definition uniq_n (invert : bool) (fs : list bytes) (l : list record) : list rec
   [[(B "count", dec_of_Z (Z.of_nat (List.length (uniq_c_run invert fs [] l))))]].
 
 (* transformUniqifyEntireRecordsShowCounts: map record text -> count and -> first record, in first-seen order.
-   The map key is recordKey (/repo c5c6a78bc): length-prefixed field names, value texts as read and type names, hence
+   The map key is recordKey (/repo 853ce11e9): length-prefixed field names, value texts as read and type names, hence
    injective on (name, text) lists: equality of keys = equality of records (for values of one origin). *)
 Fixpoint rbump (r : record) (m : list (record * Z)) : list (record * Z) :=
   match m with
